@@ -337,8 +337,10 @@ def check_converters(rep, repo):
         w = Walker(repo, fi, inline=inline_same_module_private(fi))
         calls = [e for e in w.events if e.kind == "call" and e.name == "numpy.loadtxt"]
         ok = len(calls) == 1 and calls[0].args[:1] == (("param", fi.params[0]),) \
-            and dict(calls[0].kwargs).get("delimiter") == ("const", delim) and set(dict(calls[0].kwargs)) <= {"delimiter", "ndmin"} \
-            and dict(calls[0].kwargs).get("ndmin", ("const", 2)) == ("const", 2)  # (ndmin=2: a one-row file stays a table)
+            and dict(calls[0].kwargs).get("delimiter") == ("const", delim) and set(dict(calls[0].kwargs)) <= {"delimiter", "ndmin", "dtype"} \
+            and dict(calls[0].kwargs).get("ndmin", ("const", 2)) == ("const", 2) \
+            and dict(calls[0].kwargs).get("dtype", ("builtin", "float")) in (("builtin", "float"), ("mod", "numpy.float64"), ("mod", "numpy.double"))
+        # (ndmin=2: a one-row file stays a table; dtype=float64 is the default spelt out)
         rep.fn("LOAD-text", fi, f"{loader} parses '{delim}'-separated float64 text", ok,
                f"loader call: {calls[0].text()[:120] if calls else '?'} (a dtype narrower than float64 rounds identifiers "
                "and features; another delimiter cannot read what the converter writes)")
